@@ -81,6 +81,9 @@ const S1_RULES: &[&str] = &[
     "/x[0-9]y/",
     "/Xu[0-9]Y/",
     "/CaSe[0-9]/$match-case",
+    // the same regex text without match-case, reachable by image requests only: whichever of the two
+    // is compiled first, each keeps its own case handling
+    "/CaSe[0-9]/$image",
     "@@foo*bar/ok^",
     "||imp.com^*z$important",
     "||x.com^$csp=d1,tag=a",
@@ -126,11 +129,12 @@ const S1_URLS: &[(&str, &str)] = &[
     ("https://imp.com/az", "image"),
     ("https://x.com/xu1y", "script"),
     ("https://x.com/CaSe1", "script"),
+    ("https://x.com/case1", "image"),
 ];
 
 fn s1_ops() -> Vec<Op1> {
     vec![
-        Op1::Check(0), Op1::Check(1), Op1::Check(2), Op1::Check(3), Op1::Check(4), Op1::Check(5), Op1::Csp, Op1::Cosmetic,
+        Op1::Check(0), Op1::Check(1), Op1::Check(2), Op1::Check(3), Op1::Check(4), Op1::Check(5), Op1::Check(6), Op1::Csp, Op1::Cosmetic,
         Op1::Use(0), Op1::Use(1), Op1::Use(2), Op1::Use(3), Op1::EnableA, Op1::DisableA,
         Op1::AlwaysDiscard, Op1::NeverDiscard, Op1::DiscardAll, Op1::SerDeSame, Op1::SerDeFresh, Op1::Save, Op1::Load,
         Op1::LoadBad, Op1::LoadCut, Op1::Timed, Op1::Adv6, Op1::Adv12,
